@@ -394,6 +394,10 @@ def parseMessage(rawMessage, oobFDs):
 
     m.serial = hval[5]
 
+    # header flags: 0x1 = NO_REPLY_EXPECTED, 0x2 = NO_AUTO_START
+    m.expectReply = not (hval[2] & 0x1)
+    m.autoStart = not (hval[2] & 0x2)
+
     for code, v in hval[6]:
         try:
             setattr(m, _hcode[code], v)
